@@ -127,3 +127,18 @@ Definition seteq (a b : list nat) : Prop := forall x, In x a <-> In x b.
 Definition disjointb (a b : clade) : bool := forallb (fun x => negb (memb x b)) a.
 Definition laminar (F : list clade) : Prop :=
   forall a b, In a F -> In b F -> subset a b = true \/ subset b a = true \/ disjointb a b = true.
+
+(* ---- an input tree as a rose forest (own data indices, children): its clade list ---- *)
+Inductive rtree : Type := RN (rown : list nat) (rkids : list rtree).
+Fixpoint rpoints (t : rtree) : list nat := match t with RN o ks => o ++ flat_map rpoints ks end.
+Fixpoint rclades (t : rtree) : list (list nat) := match t with RN o ks => rpoints t :: flat_map rclades ks end.
+Definition forest_points (roots : list rtree) : list nat := flat_map rpoints roots.
+Definition forest_clades (roots : list rtree) : list (list nat) := flat_map rclades roots.
+Definition ctree_of (roots : list rtree) : ctree := map norm (forest_clades roots).
+(* every clone holds at least one data point (what the samplers maintain) *)
+Fixpoint rnonempty (t : rtree) : Prop :=
+  match t with
+  | RN o ks => o <> [] /\ (fix all (l : list rtree) : Prop := match l with [] => True | k :: r => rnonempty k /\ all r end) ks
+  end.
+(* a recorded tree: pairwise distinct data points, no empty clone *)
+Definition wf_forest (roots : list rtree) : Prop := NoDup (forest_points roots) /\ Forall rnonempty roots.
